@@ -471,6 +471,8 @@ def main(tier):
     for d in sorted(drift.values(), key=lambda x: (x['selector'], x['class'])):
         chk.drift.append(d)
     _range_cover(chk, tier)
+    from harness import suite
+    suite.part(chk, 'C17')      # the repository's own test-suite as a trace corpus
     return chk.finish()
 
 
